@@ -288,6 +288,12 @@ func (sc *serverConn) checkFrameWithStream(fr *FrameHeader) error {
 	switch fr.Type() {
 	case FramePing:
 		return NewGoAwayError(ProtocolError, "ping is carrying a stream id")
+	case FrameSettings:
+		// RFC 7540 6.5. Left to the stream loop these were answered with
+		// whatever the state of that stream suggested, STREAM_CLOSED for one.
+		return NewGoAwayError(ProtocolError, "settings is carrying a stream id")
+	case FrameGoAway:
+		return NewGoAwayError(ProtocolError, "goaway is carrying a stream id")
 	case FramePushPromise:
 		return NewGoAwayError(ProtocolError, "clients can't send push_promise frames")
 	}
